@@ -532,6 +532,11 @@ func (g *docGen) fragConds(tn string) []string {
 		// abstract types overlapping through a common object
 		for _, o := range g.s.PossibleTypes(tn) {
 			conds = append(conds, g.s.Type(o).Interfaces...)
+			for _, u := range g.s.Types {
+				if u.Kind == hx.KUnion && u.HasMember(o) {
+					conds = append(conds, u.Name)
+				}
+			}
 		}
 	}
 	if g.p.Abstract {
